@@ -450,6 +450,12 @@ def pick(rng, mode, nmax):
     return ratio, n
 
 
+def _n(ctx: Ctx, quick: int, thorough: int) -> int:
+    """case count; the ×20 extended-search multiplier is capped at ×5 (the base counts already fill the budget)."""
+    base = quick if ctx.tier == "quick" else thorough
+    return min(ctx.n(quick, thorough), 5 * base)
+
+
 def run(ctx: Ctx) -> None:
     ctx.rule = ("split_rectangles on lists of 0..7 pairwise disjoint rectangles (sides 1..37 quarter units × {1,2,4}, mixed tags, "
                 "occasionally a repeated rectangle or the empty list), r from 12 dyadic values in [1.4375, 4] (Q) or 9 decimal values "
@@ -469,20 +475,20 @@ def run(ctx: Ctx) -> None:
         split_case(ctx, "Q", [{"cx": w / 2, "cy": h / 2, "w": w, "h": h, "region": "_", "fixed": False, "hard": False, "loc": "X"}],
                    ratio, n, reqs, todo)
     die_case(ctx, "Q", "4.0x4.0", None, 1.5, 2, reqs, todo)
-    for i in range(ctx.n(2000, 30000)):
+    for i in range(_n(ctx, 2000, 20000)):
         mode = "Q" if i % 3 != 2 else "F"
         ratio, n = pick(rng, mode, nmax)
         if rng.random() < 0.04:
             ratio, n = rng.choice([(1.25, n), (ratio, 0), (1.0, 0)])
         split_case(ctx, mode, gen_rect_list(rng, mode), ratio, n, reqs, todo)
-    for i in range(ctx.n(1300, 20000)):
+    for i in range(_n(ctx, 1300, 12000)):
         mode = "Q" if i % 3 != 2 else "F"
         ratio, n = pick(rng, mode, nmax)
         dy, ny = gen_die_yaml(rng, mode)
         if rng.random() < 0.03:
             ratio, n = rng.choice([(1.25, n), (ratio, 0)])
         die_case(ctx, mode, dy, ny, ratio, n, reqs, todo)
-    for i in range(ctx.n(500, 8000)):
+    for i in range(_n(ctx, 500, 8000)):
         mode = "Q" if i % 3 != 2 else "F"
         if rng.random() < 0.75:
             u = 0.25 if mode == "Q" else 0.1
@@ -492,7 +498,7 @@ def run(ctx: Ctx) -> None:
         else:
             dy, ny = gen_die_yaml(rng, mode)
         grid_case(ctx, mode, dy, ny, rng.choice([0, 1, 1, 2, 3, 4, 5, 6]), rng.choice([0, 1, 1, 2, 3, 4, 5, 6]), reqs, todo)
-    for _ in range(ctx.n(2000, 40000)):
+    for _ in range(_n(ctx, 2000, 40000)):
         heap_case(ctx, gen_heap_script(rng), reqs, todo)
     replies = ctx.model(reqs)
     if replies is None:
